@@ -36,6 +36,7 @@ func init() {
 		},
 		Assumptions: []string{
 			"requests are blind writes (add-tag with unique values, remove-tag, merge-changes of those, possibly with a failing part), reads (get-string), ListWorlds and DeleteWorld; histories are stamped with the scheduler's global event counter and checked for linearizability with porcupine v1.3.0 (30 s timeout; Unknown is counted, never reported)",
+			"12% of runs also issue add-world-with-change requests (evaluated against one world id, replacing another); such a run's history is judged against the serial model first and, if no serial order explains it, against a model that runs the function's three steps separately (known finding C40/service/add-world-not-atomic); race reports with that function in a stack are the known finding C40/race:via functions.addWorldWithChange",
 			"after all clients finish, the main task issues ListWorlds and one read per (listed world, feature, key) as further operations of the same history, which ties the final worlds to the linearization",
 			"interleavings inside the lock-upgrade window come from the scheduler (every lock operation is a scheduling point) plus R13 preemption points in grpc/service.go, ingest/worlds.go, ingest/mutable.go and api/evaluator.go",
 			"the race detector runs on the serialised schedule (DESIGN.md §3.4): no false positives, false negatives possible",
@@ -50,7 +51,8 @@ type c40In struct {
 	Feat  int
 	Key   string
 	Val   string
-	Parts []c40In // merge
+	Parts []c40In // merge; addworld: the one change applied to the new world
+	Target int    // addworld: index of the world that is replaced
 	Fail  bool    // merge part / change that must fail (missing feature)
 	Final bool    // issued by the main task after every client finished
 }
@@ -71,6 +73,8 @@ func (in c40In) String() string {
 		return fmt.Sprintf("w%d: get-string f%d %s", in.World, in.Feat, in.Key)
 	case "copy":
 		return fmt.Sprintf("w%d: add-tag f%d %s=(get-string f%d %s)", in.World, in.Feat, in.Key, in.Feat, in.Val)
+	case "addworld":
+		return fmt.Sprintf("w%d: add-world-with-change w%d {%s}", in.World, in.Target, in.Parts[0].String())
 	case "list":
 		return "ListWorlds"
 	case "delete":
@@ -126,6 +130,8 @@ func (in c40In) expression() string {
 			p = append(p, fmt.Sprintf("%d: (%s)", i, x.expression()))
 		}
 		return "merge-changes {" + strings.Join(p, ", ") + "}"
+	case "addworld":
+		return fmt.Sprintf("add-world-with-change /%s (%s)", c40Worlds[in.Target], in.Parts[0].expression())
 	case "read":
 		return fmt.Sprintf("get-string /%s %q", c40FeatureID(in.Feat), in.Key)
 	case "copy":
@@ -262,6 +268,16 @@ func c40Step(state, input, output interface{}) (bool, interface{}) {
 	case "read":
 		st.exists[in.World] = true // evaluating against a world id creates the world
 		return !out.Err && out.Val == c40Lookup(&st, in.World, in.Feat, in.Key), st.String()
+	case "addworld":
+		// evaluated against in.World; replaces world in.Target by a fresh
+		// one with the change applied (the fresh world stays if it fails)
+		st.exists[in.World] = true
+		st.exists[in.Target] = true
+		st.tags[in.Target] = map[string]string{}
+		part := in.Parts[0]
+		part.World = in.Target
+		ok := c40ApplyChange(&st, part)
+		return out.Err == !ok, st.String()
 	default:
 		st.exists[in.World] = true
 		ok := c40ApplyChange(&st, in)
@@ -365,6 +381,52 @@ func c40Step2(state, input, output interface{}) (bool, interface{}) {
 			return !out.Err && out.Val == c40Lookup(&st.c40State, in.World, in.Feat, in.Key), st.String()
 		}
 		panic("unexpected single-point op " + in.Kind)
+	case "aw-delete":
+		// add-world-with-change, as the unchanged function does it, in three
+		// steps under the read lock: (1) the evaluation makes its own world
+		// visible and deletes the target world ...
+		if _, dup := st.pending[in2.Req]; dup {
+			return false, state
+		}
+		st.touch(in.World)
+		if st.exists[in.Target] {
+			st.exists[in.Target] = false
+			st.tags[in.Target] = map[string]string{}
+		}
+		st.pending[in2.Req] = "d"
+		return true, st.String()
+	case "aw-create":
+		// ... (2) finds or creates the target world ...
+		if st.pending[in2.Req] != "d" {
+			return false, state
+		}
+		st.touch(in.Target)
+		st.pending[in2.Req] = fmt.Sprintf("%d,%d,", in.Target, st.gen[in.Target])
+		return true, st.String()
+	case "aw-apply":
+		// ... (3) applies the change to the world object it got
+		out := output.(c40Out)
+		p, ok := st.pending[in2.Req]
+		if !ok || p == "d" {
+			return false, state
+		}
+		delete(st.pending, in2.Req)
+		var w, g int
+		fmt.Sscanf(p, "%d,%d,", &w, &g)
+		part := in.Parts[0]
+		part.World = w
+		scratch := c40State{}
+		for i := range scratch.tags {
+			scratch.tags[i] = map[string]string{}
+		}
+		okc := c40ApplyChange(&scratch, part)
+		if out.Err == okc {
+			return false, state
+		}
+		if okc && st.exists[w] && st.gen[w] == g {
+			c40ApplyChange(&st.c40State, part)
+		}
+		return true, st.String()
 	case "eval":
 		if _, dup := st.pending[in2.Req]; dup {
 			return false, state
@@ -567,6 +629,10 @@ type c40Op struct {
 func runC40(rc *RC) {
 	name := "C40/service"
 	readDependent := rc.Pct(20)
+	// addWorld: some evaluations call add-world-with-change, which replaces
+	// a world and applies a change to the new one during evaluation, under
+	// the read lock; see the known finding C40/service/add-world-not-atomic
+	addWorld := !readDependent && rc.Pct(12)
 	// readDependent: some changes are computed from a read
 	// (add-tag F (tag k (get-string F k2))); see the known finding
 	// C40/service/stale-apply
@@ -603,6 +669,14 @@ func runC40(rc *RC) {
 				if readDependent && rc.Pct(70) {
 					k1 := rc.Draw(len(keys))
 					in = c40In{Kind: "copy", Feat: feats[0], Key: keys[k1], Val: keys[1-k1]}
+				}
+				if addWorld && rc.Pct(50) {
+					// plain key: applying it is a single map write, so the
+					// three-step model below describes the function exactly
+					g.valueCounter++
+					part := c40In{Kind: "addtag", Feat: feats[rc.Draw(len(feats))], Key: "name", Val: fmt.Sprintf("v%d", g.valueCounter), Fail: rc.Pct(10)}
+					in = c40In{Kind: "addworld", Target: 1 + rc.Draw(2), Parts: []c40In{part}}
+					rc.Probe("add-world-with-change-request")
 				}
 			case 1:
 				in = c40In{Kind: "read", Feat: feats[rc.Draw(len(feats))], Key: keys[rc.Draw(len(keys))]}
@@ -719,6 +793,10 @@ func runC40(rc *RC) {
 			switch in.Kind {
 			case "list", "delete", "read":
 				h2 = append(h2, porcupine.Operation{ClientId: op.ClientId, Input: c40In2{In: in}, Output: op.Output, Call: op.Call, Return: op.Return})
+			case "addworld":
+				h2 = append(h2, porcupine.Operation{ClientId: op.ClientId, Input: c40In2{Phase: "aw-delete", Req: i, In: in}, Output: c40Out{}, Call: op.Call, Return: op.Return})
+				h2 = append(h2, porcupine.Operation{ClientId: op.ClientId, Input: c40In2{Phase: "aw-create", Req: i, In: in}, Output: c40Out{}, Call: op.Call, Return: op.Return})
+				h2 = append(h2, porcupine.Operation{ClientId: op.ClientId, Input: c40In2{Phase: "aw-apply", Req: i, In: in}, Output: op.Output, Call: op.Call, Return: op.Return})
 			default:
 				h2 = append(h2, porcupine.Operation{ClientId: op.ClientId, Input: c40In2{Phase: "eval", Req: i, In: in}, Output: c40Out{}, Call: op.Call, Return: op.Return})
 				h2 = append(h2, porcupine.Operation{ClientId: op.ClientId, Input: c40In2{Phase: "apply", Req: i, In: in}, Output: op.Output, Call: op.Call, Return: op.Return})
@@ -732,6 +810,10 @@ func runC40(rc *RC) {
 				for _, op := range ops[c] {
 					lines = append(lines, fmt.Sprintf("  client%d [%d,%d] %s -> err=%v val=%q", c, op.call, op.ret, op.in, op.out.Err, op.out.Val))
 				}
+			}
+			if addWorld {
+				rc.Fail("C40/service/add-world-not-atomic", "no serial order explains this history, but running each add-world-with-change as the function does it - delete the world, find or create it, apply the change, three separate steps under the read lock - does: two of them, or one and a DeleteWorld or an evaluation on the same world id, interleaved\n%s", strings.Join(lines, "\n"))
+				return
 			}
 			rc.Fail("C40/service/stale-apply", "no serial order explains this history, but evaluating each change at one point and applying it at a later one (to the world obtained at evaluation) does: a change computed from a read was applied after the state it read had changed\n%s", strings.Join(lines, "\n"))
 			return
